@@ -10,5 +10,8 @@ META = {
 
 def run(ctx):
     durcommon.exhaustive(ctx, "C04")
+    # the in-memory side of a clean close (drain merges, final persist of every modified table)
+    ctx.tlc_mc("Pipeline.tla", "Pipeline_quick.cfg", timeout=300)
+    ctx.tlc_mc("Pipeline.tla", "Pipeline_dev_f20.cfg", timeout=300, expect_violation="ReopenSeesAll", count=False)
     durcommon.run_file(ctx, "reopen", 12 if ctx.thorough() else 4, 0, "C04")
     ctx.assumptions += durcommon.ASSUME
